@@ -163,8 +163,12 @@ def explore(chk, ns, max_states, variant="matrix", with_model=True, budget_s=600
                 index.append((st, name, len(pre)))
         impl = core.run_stream(fvh, "session", cases)
         if fvm:
-            model = core.run_stream(fvm, "session", cases)
-            chk.correspond("ring-closure[N=%d]" % ns, variant, cases, impl, model)
+            # the faulted-start probes arm the k-th device operation: which operation that is depends on the read pattern, which no
+            # property constrains, so they are judged by the oracle alone and left out of the comparison with the model
+            keep = [i for i, (_, name, _) in enumerate(index) if not name.startswith("start-f")]
+            mcases = [cases[i] for i in keep]
+            model = core.run_stream(fvm, "session", mcases)
+            chk.correspond("ring-closure[N=%d]" % ns, variant, mcases, [impl[i] for i in keep], model)
         stats["transitions"] += len(cases)
         nxt = []
         # first pass per state: the query / probe cases give bl, fb and the resumable pair
